@@ -133,7 +133,11 @@ def tuner_case(args) -> dict:
     return rec
 
 
-SHAPES = {1: [[[1]], [[]]], 2: [[[2]], [[1, 2]], [[], [1]]], 3: [[[3]], [[1], [2, 1]], [[3, 1]]]}
+# grids with exactly 1 / 2 / 3 distinct points; several are LISTS of sub-grids whose later sub-grid lacks a key of an earlier
+# one (a point must be evaluated with exactly its own parameters, defaults for the keys it omits)
+SHAPES = {1: [[[1]], [[]]],
+          2: [[[2]], [[1, 2]], [[], [1]], [[1], []], [[1, 1], [1]]],
+          3: [[[3]], [[1], [2, 1]], [[3, 1]], [[2, 1], [1]], [[1, 1], [], [1]], [[1, 1, 1], [1, 1], [1]]]}
 
 
 def main(chk: Check):
